@@ -531,7 +531,13 @@ func (r *runner) setup() error {
 			}
 			id := bs.id()
 			b := hx.NewBundle(rs.Name, r.stores, hx.Local(src), c.Leaf, core.BundleID(id), core.ConcurrentFileUploads(1))
-			if err := core.VerifUpload(r.ctx, b, c.EPF, nil); err != nil {
+			var uerr error
+			if c.EPF == 1000 {
+				uerr = core.Upload(r.ctx, b) // the production entry point (1000 entries per index file)
+			} else {
+				uerr = core.VerifUpload(r.ctx, b, c.EPF, nil)
+			}
+			if err := uerr; err != nil {
 				return fmt.Errorf("setup: upload %s/%s: %v", rs.Name, id, err)
 			}
 			mb := &mBundle{id: id, files: map[string]mFile{}}
@@ -1009,7 +1015,13 @@ func (r *runner) verifyRepo(name, after string) error {
 		mb := mr.bundles[id]
 		dst := r.sc.Dir("dst")
 		db := hx.NewBundle(name, r.stores, hx.Local(dst), 0, core.BundleID(id))
-		if err := core.VerifPublish(r.ctx, db, r.c.EPF, func(string) (bool, error) { return true, nil }); err != nil {
+		var perr error
+		if r.c.EPF == 1000 {
+			perr = core.Publish(r.ctx, db) // the production entry point
+		} else {
+			perr = core.VerifPublish(r.ctx, db, r.c.EPF, func(string) (bool, error) { return true, nil })
+		}
+		if err := perr; err != nil {
 			return fmt.Errorf("after %s: bundle %s/%s cannot be downloaded: %v", after, name, id, err)
 		}
 		seen := map[string]bool{}
